@@ -109,7 +109,23 @@ def _urandom(n):
 
 core.register_patch(os.urandom, _urandom)
 
+# 4. weakref.ref.__call__: CrossHair's stock patch runs gc.collect() on every dereference to make
+#    dead references deterministic (29 ms each; SQLAlchemy dereferences instance-state weakrefs
+#    hundreds of times per path).  Harness objects are strongly held for the whole path, so the
+#    plain dereference is deterministic here.
+import weakref  # noqa: E402
+
+
+def _ref_call(r):
+    if not isinstance(r, weakref.ref):
+        raise TypeError
+    return r()
+
+
+core._PATCH_REGISTRATIONS[weakref.ref.__call__] = _ref_call
+
 MODELS = [
+    "weakref.ref(): plain dereference without the stock model's gc.collect()",
     "int.to_bytes(symbolic): fresh bytes b_i in [0,255], v (+2^{8n} if negative) = sum b_i*256^i",
     "struct.pack('!c', symbolic 1-byte bytes) pass-through; symbolic bool -> int before pack",
     "os.urandom(n): n fresh symbolic bytes",
